@@ -363,3 +363,48 @@ def _keyword_prefix_one(prog, R, rule, fn, kw):
             bad.append((text, sorted(res, key=repr)[:3]))
     R.ob(rule, fn.split("::")[-1], not bad, b.at, f"{len(rows)} inputs: true iff {kw!r} + white space; consumed = the matching prefix only" if not bad else
          f"for the continuation {bad[0][0]!r} the scanner gives (answer, characters consumed) {bad[0][1]} ({len(bad)} of {len(rows)} rows deviate; '?' = not evaluable): a character that does not continue the keyword is consumed, or the header is recognised without the separating white space")
+
+
+def first_char_kinds(prog, ch):
+    """Token kinds (as shown terms) that Cursor::advance_token can return when the first character is the ASCII
+    character `ch`; the guards is_whitespace / is_id_start / is_id_continue on that constant are folded."""
+    from sym import deep_strip, show
+    b = prog.body("oq3_lexer::Cursor::advance_token")
+    if b is None:
+        return None
+
+    def model(se, st, t, cal, args, site):
+        if cal.endswith("Cursor::bump"):
+            nb = sum(1 for nm, a, bb in st.calls if nm.endswith("Cursor::bump"))
+            if nb == 0:
+                return ("adt", "std::option::Option::Some", (("c", "char", ch),))
+        if args and isinstance(args[0], tuple) and args[0][0] == "c" and isinstance(args[0][2], int) and args[0][2] < 128:
+            c = args[0][2]
+            if cal.endswith("oq3_lexer::is_whitespace"):
+                return ("c", "bool", 1 if c in WHITESPACE else 0)
+            if cal.endswith("oq3_lexer::is_id_start"):
+                return ("c", "bool", 1 if (chr(c).isalpha() or c == 95) else 0)
+            if cal.endswith("oq3_lexer::is_id_continue"):
+                return ("c", "bool", 1 if (chr(c).isalnum() or c == 95) else 0)
+        return None
+    out = set()
+    for p in SymExec(prog, b, max_visits=1, max_paths=3000, call_model=model).paths():
+        if "__diverged__" in p.env:
+            continue
+        r = deep_strip(p.env.get(0))
+        k = r[2][0] if isinstance(r, tuple) and r[0] == "call" and r[1].endswith("Token::new") and r[2] else r
+        out.add(show(deep_strip(k))[:80])
+    return out
+
+
+def pound_arm_check(prog, R, rule):
+    """Only `#pragma` and `#dim` may begin with '#': whatever else starts with '#' is an InvalidIdent token (which
+    carries the lexical diagnostic).  The kinds advance_token can return for a first character '#' are enumerated."""
+    ks = first_char_kinds(prog, ord("#"))
+    b = prog.body("oq3_lexer::Cursor::advance_token")
+    if ks is None:
+        R.ob("ANCHOR", "oq3_lexer::Cursor::advance_token", False)
+        return
+    want = {"TokenKind::Pragma", "TokenKind::Dim", "TokenKind::InvalidIdent"}
+    R.ob(rule, "tokens starting with '#'", bool(ks) and ks <= want and "TokenKind::InvalidIdent" in ks, b.at,
+         f"kinds: {sorted(ks)}" if ks <= want else f"a token starting with '#' can be {sorted(ks - want)}: a word such as `#dx` that is neither #pragma nor #dim is lexed as a valid token and gets no lexical diagnostic")
